@@ -267,18 +267,33 @@ class Native:
 
     def build(self):
         t0 = time.time()
+        import shutil
+        import hashlib
+        rdir, tdir = REPLAY_DIR, REPLAY_TARGET
+        if core.REPO != "/repo":
+            # evaluation against another checkout (VERIF_REPO): private copy of the oracle crate and target dir
+            tag = hashlib.sha256(core.REPO.encode()).hexdigest()[:10]
+            rdir = os.path.join(core.SCRATCH_ROOT, "replay-" + tag)
+            tdir = os.path.join(core.CACHE, "replay-target-" + tag)
+            shutil.rmtree(rdir, ignore_errors=True)
+            os.makedirs(rdir)
+            shutil.copytree(os.path.join(REPLAY_DIR, "src"), os.path.join(rdir, "src"))
+            toml = open(os.path.join(REPLAY_DIR, "Cargo.toml")).read().replace(
+                "/repo/crates/svgbob", os.path.join(core.REPO, "crates", "svgbob"))
+            open(os.path.join(rdir, "Cargo.toml"), "w").write(toml)
+            if not os.path.exists(tdir) and os.path.exists(REPLAY_TARGET):
+                subprocess.run(["cp", "-al", REPLAY_TARGET, tdir])
         lock = os.path.join(core.REPO, "Cargo.lock")
         if os.path.exists(lock):
-            import shutil
-            shutil.copy(lock, os.path.join(REPLAY_DIR, "Cargo.lock"))
+            shutil.copy(lock, os.path.join(rdir, "Cargo.lock"))
         env = dict(core.ENV)
-        env["CARGO_TARGET_DIR"] = REPLAY_TARGET
-        r = subprocess.run(["cargo", "build", "--offline", "--quiet"], cwd=REPLAY_DIR, env=env,
+        env["CARGO_TARGET_DIR"] = tdir
+        r = subprocess.run(["cargo", "build", "--offline", "--quiet"], cwd=rdir, env=env,
                            stdout=subprocess.PIPE, stderr=subprocess.STDOUT, text=True)
         self.build_s = time.time() - t0
         if r.returncode != 0:
             return r.stdout[-2000:]
-        self.p = subprocess.Popen([os.path.join(REPLAY_TARGET, "debug", "verif_replay")],
+        self.p = subprocess.Popen([os.path.join(tdir, "debug", "verif_replay")],
                                   stdin=subprocess.PIPE, stdout=subprocess.PIPE, text=True, bufsize=1)
         return None
 
